@@ -1,6 +1,7 @@
 import JSight.NoCrash
 import JSight.RenderProofs
 import JSight.EnumNoCrash
+import JSight.SchemaNoCrash
 /-!
 # C07 — no panics: the parts that are theorems
 
@@ -14,6 +15,12 @@ import JSight.EnumNoCrash
   is one of the structured ones (array expected, invalid character, duplicate value, unexpected end of file).
   Invariant: the queued finds replay against the lexeme stack and what is left has the shape fixed by the step
   function and the return stack.
+* `C07_schema_no_crash`, `C07_schema_len_no_crash`: the same for the JSight schema scanner model
+  (`notations/jschema/internal/scanner`, ≈60 states, three stacks: return steps, lexeme stack, contexts): for
+  every byte string no "Reading from empty stack (…)", no "Incorrect ending of the lexical event", no
+  "Unexpected context" / "Incorrect annotation begin in stack", and no fuel exhaustion. The invariant is a
+  recursive grammar of (step, effective lexeme stack, return stack) — annotations nest to any depth because a
+  `#` comment inside an inline annotation resets the annotation flag.
 * `C07_render_total`: producing the `Error()` text never indexes outside the content.
 * template / argument agreement at every error construction site: `JSight.Tie.Errors` over the table
   regenerated from /repo's source on every run.
@@ -31,6 +38,12 @@ theorem C07_enum_no_crash (bs : List UInt8) : ∀ e, EnumScan.scanAll bs = .erro
 
 theorem C07_enum_len_no_crash (bs : List UInt8) : ∀ e, EnumScan.length bs = .error e → EnumScan.Err.isCrash e = false :=
   EnumScan.length_no_crash bs
+
+theorem C07_schema_no_crash (bs : List UInt8) :
+    ∀ e, SchemaScan.scanAll bs = .error e → SchemaScan.Err.isCrash e = false := SchemaScan.scanAll_no_crash bs
+
+theorem C07_schema_len_no_crash (bs : List UInt8) :
+    ∀ e, SchemaScan.length bs = .error e → SchemaScan.Err.isCrash e = false := SchemaScan.length_no_crash bs
 
 theorem C07_render_total (content : Array UInt8) (idx : Nat) (h : idx < content.size) :
     (Render.render content idx).isSome = true := Render.render_total content idx h
